@@ -152,9 +152,9 @@ def check_C09(tier, seed, res, replay=None):
     # step-level binding of the Layer-2 models: recorded executions of the real algorithms must be behaviours of
     # FAAntichain / FACongr (evidence only: a divergence is reported as MODEL-BINDING-DIVERGED, never as a violation)
     nbind = 12000 if tier == "thorough" else 2500
-    bind_steps(res, rd, rng, [c for c in cases if c["sel"] == "anti" and nt_pair(c)][:], nbind, "FAAntichain", "faantitrace", "TraceFAAnti.tla", "TraceFAAnti.cfg", "bind")
+    bind_steps(res, rd, rng, [c for c in cases if c["sel"] == "anti" and nt_pair(c) and c.get("src") != "hub"][:], nbind, "FAAntichain", "faantitrace", "TraceFAAnti.tla", "TraceFAAnti.cfg", "bind")
     for sel, order in (("cd", "depth"), ("cb", "breadth")):
-        bind_steps(res, rd, rng, [c for c in cases if c["sel"] == sel and nt_pair(c)], nbind // 2, "FACongr-" + order, "facongrtrace",
+        bind_steps(res, rd, rng, [c for c in cases if c["sel"] == sel and nt_pair(c) and c.get("src") != "hub"], nbind // 2, "FACongr-" + order, "facongrtrace",
                    "TraceFACongr.tla", "TraceFACongr_%s.cfg" % order, "bind" + sel, fold_adds=True)
     # Layer 0 self-check and Layer 2 model (safety + liveness over every pick order)
     shards = list(range(64)) if tier == "thorough" else [(seed * 5 + i * 4) % 64 for i in range(16)]
